@@ -162,8 +162,10 @@ func (p *poller) pollPeers(ctx context.Context, force bool) {
 			continue
 		}
 
-		peer.MarkAsPolled()
-		if err := p.store.SavePeerState(peer); err != nil {
+		// The records were loaded before the (slow) sends: writing this copy
+		// back would replace a capability the message handler stored in the
+		// meantime. Only stamp the poll time on the current record.
+		if err := p.store.MarkPeerPolled(peer.ID(), time.Now()); err != nil {
 			log.Printf("failed to persist peer state for %s: %v", peer.ID().String(), err)
 		}
 	}
